@@ -112,7 +112,7 @@ prop('C05',
            'synctest bubble, followed by a fair completion phase (all elements offered with the inputs still open, then inputs closed); oracle: list functions on the input; '
            'delivered is a prefix of the expected list at every receive, equal to it when the output closes, per-argument call counts and call order of the user function, '
            'number of elements removed from the input (Take/TakeWhile), early close of Take/TakeWhile without waiting for more input, no goroutine of the stage alive after completion; '
-           'plus Seq/ToSeq: ToSeq(chain(Seq(xs...))) for generated chains of Map/Filter/Take/TakeWhile/FMap over 0..24 (10%: 1000..2200) elements equals the list functions, the caller overwriting its slice right after Seq returned; the input buffer may already hold elements when the stage is created (Prefill); a fifth of the scenarios run an independent second instance of the stage alongside (own channels and context, must complete as if alone); a separate part streams elements of type any (nil interface, typed nils, zero values, non-comparable payloads) through Take/Filter/Map/TakeWhile; all scripts of 5 (thorough: 7) moves over {send, close, recv 0, recv 1, burst 2} are enumerated for every stage, capacity {0,1} and two inputs; a separate part folds element objects of a pointer-typed carrier (Combine adds into its left operand, shared objects half of the time) twice and re-reads the objects afterwards; non-trivial = input length >= 2 and (capacity < length or a quiescent point with a blocked producer / full buffer); distinct = different canonical scenario'),
+           'plus Seq/ToSeq: ToSeq(chain(Seq(xs...))) for generated chains of Map/Filter/Take/TakeWhile/FMap over 0..24 (10%: 1000..2200) elements equals the list functions, the caller overwriting its slice right after Seq returned; the input buffer may already hold elements when the stage is created (Prefill); a fifth of the scenarios run an independent second instance of the stage alongside (own channels and context, must complete as if alone); a separate part streams elements of type any (nil interface, typed nils, zero values, non-comparable payloads) through Take/Filter/Map/TakeWhile; all scripts of 5 (thorough: 7) moves over {send, close, recv 0, recv 1, burst 2} are enumerated for every stage, capacity {0,1} and two inputs; a separate part folds element objects of a pointer-typed carrier (Combine adds into its left operand, shared objects half of the time) twice and re-reads the objects afterwards; a few hundred (thorough: 15000) of the generated scenarios are also executed in a binary built with the race detector; non-trivial = input length >= 2 and (capacity < length or a quiescent point with a blocked producer / full buffer); distinct = different canonical scenario'),
      assumptions=E3_ASSUME,
      parts=[
          dict(name='enum', engine='E3', pkg='pipes', test='TestC05Enum', kind='plain',
@@ -123,6 +123,8 @@ prop('C05',
               quick=dict(cases=3000, shards=1), thorough=dict(cases=60000, shards=4, timeout=3000)),
          dict(name='seq', engine='E3', pkg='pipes', test='TestC05Seq',
               quick=dict(cases=10000, shards=1), thorough=dict(cases=200000, shards=8, timeout=3000)),
+         dict(name='race-detector', engine='E3', pkg='pipes', test='TestC05', race=True, env=dict(GORACE='halt_on_error=1'),
+              quick=dict(cases=400, shards=2), thorough=dict(cases=15000, shards=8, timeout=3000)),
          dict(name='rapid', engine='E3', pkg='pipes', test='TestC05',
               quick=dict(cases=20000, shards=4), thorough=dict(cases=900000, shards=16, timeout=3000)),
      ],
@@ -142,11 +144,13 @@ prop('C06',
            'for every stage, mode and capacity {0,1,3}; oracle: no process death (journal), delivered prefix of the uncancelled result at every receive (Fold/ForEach/Void: nothing or the full result), '
            'uncancelled runs: every port closes under a fair consumer and no stage goroutine remains (goroutine census of the bubble; Throttling may keep one pacer); after cancel + close of all inputs with NO further receive: '
            'census empty after a virtual horizon, then every port drains to "closed"; bubble exit without deadlock; '
-           '(leak verdicts come from the bubble itself: it cannot end while a goroutine of the stage is blocked; the census is taken for Throttling and to describe a leak); enumerated scenarios are repeated to sample select tie-breaks; stages are also created on an already cancelled context, and a sixth of the scenarios run an independent never-cancelled second instance alongside which must complete as if alone; a quarter of the Filter/TakeWhile/Partition scenarios use Lift/Try predicates that return errors (liveness, leak and nothing-invented clauses only); a quarter of the scenarios end by a deadline-style context (Err() == DeadlineExceeded); scripts of the untimed stages contain waits of 2 s / 90 s / 4000 s of virtual time; non-trivial = cancel while a producer is blocked / buffer full, or cancel inside a batch; distinct = different canonical scenario'),
+           '(leak verdicts come from the bubble itself: it cannot end while a goroutine of the stage is blocked; the census is taken for Throttling and to describe a leak); enumerated scenarios are repeated to sample select tie-breaks; stages are also created on an already cancelled context, and a sixth of the scenarios run an independent never-cancelled second instance alongside which must complete as if alone; a quarter of the Filter/TakeWhile/Partition scenarios use Lift/Try predicates that return errors (liveness, leak and nothing-invented clauses only); a quarter of the scenarios end by a deadline-style context (Err() == DeadlineExceeded); scripts of the untimed stages contain waits of 2 s / 90 s / 4000 s of virtual time; a few hundred (thorough: 15000) of the generated scenarios are also executed in a binary built with the race detector; non-trivial = cancel while a producer is blocked / buffer full, or cancel inside a batch; distinct = different canonical scenario'),
      assumptions=E3_ASSUME + ['goroutines are attributed to the stage by frames in github.com/fogfish/golem/pipe/v2 within the current bubble'],
      parts=[
          dict(name='cancel-enum', engine='E3', pkg='pipes', test='TestC06Cancel', kind='plain',
               quick=dict(shards=8), thorough=dict(shards=16, timeout=3000, env=dict(VERIF_C06_REPEAT=8))),
+         dict(name='race-detector', engine='E3', pkg='pipes', test='TestC06', race=True, env=dict(GORACE='halt_on_error=1'),
+              quick=dict(cases=400, shards=2), thorough=dict(cases=15000, shards=8, timeout=3000)),
          dict(name='rapid', engine='E3', pkg='pipes', test='TestC06',
               quick=dict(cases=15000, shards=8), thorough=dict(cases=900000, shards=16, timeout=3000)),
      ],
@@ -163,13 +167,15 @@ prop('C07',
            '(values first, errors first, alternating, stepwise, fair only); generated: inputs up to 40 elements with duplicates, random failing value sets, random scripts, error values that wrap '
            'context.Canceled / DeadlineExceeded / io.EOF, StdErr wrapping; oracle: exact value and error sequences per mode, both channels closed, call count = k+1 and elements removed <= k+1 under fail-fast, '
            'fail-fast closes without waiting for further input, no stuck state under a fair consumer that reads the error channel; '
-           'error values also include a slice-typed (non-comparable) error type; every enumerated Map/FMap mask is also run with the StdErr reader of the library itself as the error reader; a sixth of the Map/FMap scenarios run an independent second instance alongside (own failing set); a separate part hands ONE morphism value (pipe.Lift / Try / LiftF / TryF and the fork constructors) to two or three stages in a row, the first of which usually fails: each stage behaves as documented for its own input (values, errors, call counts); non-trivial = at least one failing and one succeeding element with a success after the first failure; distinct = different canonical scenario'),
+           'error values also include a slice-typed (non-comparable) error type; every enumerated Map/FMap mask is also run with the StdErr reader of the library itself as the error reader; a sixth of the Map/FMap scenarios run an independent second instance alongside (own failing set); a separate part hands ONE morphism value (pipe.Lift / Try / LiftF / TryF and the fork constructors) to two or three stages in a row, the first of which usually fails: each stage behaves as documented for its own input (values, errors, call counts); a few hundred (thorough: 15000) of the generated scenarios are also executed in a binary built with the race detector; non-trivial = at least one failing and one succeeding element with a success after the first failure; distinct = different canonical scenario'),
      assumptions=E3_ASSUME + ['the error channel is always eventually read (proviso of the statement)', 'a failing arrow emits nothing before failing'],
      parts=[
          dict(name='enum', engine='E3', pkg='pipes', test='TestC07Enum', kind='plain',
               quick=dict(shards=8), thorough=dict(shards=16, timeout=3000)),
          dict(name='reuse', engine='E3', pkg='pipes', test='TestC07Reuse',
               quick=dict(cases=4000, shards=1), thorough=dict(cases=80000, shards=4, timeout=3000)),
+         dict(name='race-detector', engine='E3', pkg='pipes', test='TestC07', race=True, env=dict(GORACE='halt_on_error=1'),
+              quick=dict(cases=400, shards=2), thorough=dict(cases=15000, shards=8, timeout=3000)),
          dict(name='rapid', engine='E3', pkg='pipes', test='TestC07',
               quick=dict(cases=10000, shards=8), thorough=dict(cases=800000, shards=16, timeout=3000)),
      ],
@@ -258,9 +264,11 @@ prop('C11',
            '(idle gap, reads) x optional cancel at a drawn virtual time; executed with goroutine actors on the virtual clock of a synctest bubble; oracle: received values are a prefix of the exact successive sequence, errors a prefix of the failing indices, '
            'Emit: consecutive calls of f at least one frequency apart, call i not before i ticks, value j not received before j ticks, f called with 0,1,2,...; an always-ready consumer without faults receives values exactly one frequency apart; '
            'the stage keeps producing until cancelled (bounded virtual wait); after cancel both channels close and the bubble ends; '
-           'in a third of the Emit scenarios the step function itself takes 0..3 quarters of a tick of virtual time; in half of the cancelled scenarios the consumer gives up at the cancel; a sixth of the scenarios run an independent second Emit/Unfold on the same virtual clock (always-ready consumer: exact sequence, values exactly one period apart); one scenario in sixteen creates the stage on an already cancelled context; a quarter of the Emit/Try scenarios fail on every index from some point on and are cancelled inside that run; after a cancel the errors keep being read for the whole horizon and the channels must be closed at its end; a quarter of the scenarios end by a real deadline context instead of a cancel; non-trivial = >= 3 values received and (capacity < received or an idle gap of >= 2 ticks); distinct = different canonical scenario'),
+           'in a third of the Emit scenarios the step function itself takes 0..3 quarters of a tick of virtual time; in half of the cancelled scenarios the consumer gives up at the cancel; a sixth of the scenarios run an independent second Emit/Unfold on the same virtual clock (always-ready consumer: exact sequence, values exactly one period apart); one scenario in sixteen creates the stage on an already cancelled context; a quarter of the Emit/Try scenarios fail on every index from some point on and are cancelled inside that run; after a cancel the errors keep being read for the whole horizon and the channels must be closed at its end; a quarter of the scenarios end by a real deadline context instead of a cancel; a few hundred (thorough: 15000) of the generated scenarios are also executed in a binary built with the race detector; non-trivial = >= 3 values received and (capacity < received or an idle gap of >= 2 ticks); distinct = different canonical scenario'),
      assumptions=E3_ASSUME + ['pacing is checked on the virtual clock, i.e. the logic of sleeping, not scheduler latency'],
      parts=[
+         dict(name='race-detector', engine='E3', pkg='pipes', test='TestC11', race=True, env=dict(GORACE='halt_on_error=1'),
+              quick=dict(cases=400, shards=2), thorough=dict(cases=15000, shards=8, timeout=3000)),
          dict(name='rapid', engine='E3', pkg='pipes', test='TestC11',
               quick=dict(cases=10000, shards=4), thorough=dict(cases=800000, shards=16, timeout=3000)),
      ],
@@ -275,9 +283,11 @@ prop('C13',
      rule=('generated: ops 1..5 x interval 1..4 units of {1ms, 1s, 7ns} x input capacity 0..3 x 0..30 elements x scenario class (saturated: input always available and consumer always ready; consumer stalls for 2..10 intervals then drains; '
            'input pauses for 2..10 intervals then bursts; random arrival and consumer patterns) x optional cancel at a drawn time; actors on a synctest virtual clock; oracle: delivered == input in order, closed at the end; for every delivery time t before the cancel the '
            'half-open window [t, t+interval) holds at most 2*ops+1+c deliveries; saturated class: element i delivered within [floor(i/ops)*interval, +interval]; completion within a generous virtual budget; '
-           'a sixth of the scenarios run an independent second Throttling of the same rate on the same virtual clock (saturated environment: exact per-element delivery window); one scenario in twenty creates the stage on an already cancelled context; a quarter of the scenarios end by a real context.WithDeadline on the virtual clock instead of a cancel (the context reports its deadline); non-trivial = at least 2*ops+1 elements and (an idle period of >= 2 intervals followed by a burst, or saturated with ops >= 2); distinct = different canonical scenario'),
+           'a sixth of the scenarios run an independent second Throttling of the same rate on the same virtual clock (saturated environment: exact per-element delivery window); one scenario in twenty creates the stage on an already cancelled context; a quarter of the scenarios end by a real context.WithDeadline on the virtual clock instead of a cancel (the context reports its deadline); a few hundred (thorough: 15000) of the generated scenarios are also executed in a binary built with the race detector; non-trivial = at least 2*ops+1 elements and (an idle period of >= 2 intervals followed by a burst, or saturated with ops >= 2); distinct = different canonical scenario'),
      assumptions=E3_ASSUME + ['rate bound as stated by the property (2*ops+1+c per interval window), timestamps taken at the consumer'],
      parts=[
+         dict(name='race-detector', engine='E3', pkg='pipes', test='TestC13', race=True, env=dict(GORACE='halt_on_error=1'),
+              quick=dict(cases=400, shards=2), thorough=dict(cases=15000, shards=8, timeout=3000)),
          dict(name='rapid', engine='E3', pkg='pipes', test='TestC13',
               quick=dict(cases=10000, shards=4), thorough=dict(cases=600000, shards=16, timeout=3000)),
      ],
@@ -291,13 +301,15 @@ prop('C12',
      level='exploration',
      rule=('generated: k in {0,1,2,3,4,5,9,12} inputs of 0..6 tagged elements (input*1000+seq), capacities 0..3 each, scripts of up to 40+4k moves interleaving sends/bursts/closes on all inputs and receives; '
            'oracle at every receive: per-input subsequence of the delivered elements is a prefix of that input, no foreign element; if the output is observed closed: every input closed and fully delivered; completion: everything delivered then closed; '
-           'the slice of channels handed to Join is overwritten right after the call; one scenario in eight hands the same channel to Join twice (multiset oracle, no invented values); a fifth of the scenarios run an independent second Join alongside; a separate part joins streams of type any; all scripts of 6 (thorough: 8) moves over {send 0, send 1, close 0, close 1, recv} on two inputs are enumerated for three capacity pairs; one scenario in fifteen has 17..70 inputs (more than processors); with every element offered, the inputs open and a fair consumer everything must have come out already; scripts contain waits of 2 s / 90 s / 4000 s of virtual time; non-trivial = k >= 2, two non-empty inputs, sends alternate between inputs; distinct = different canonical scenario'),
+           'the slice of channels handed to Join is overwritten right after the call; one scenario in eight hands the same channel to Join twice (multiset oracle, no invented values); a fifth of the scenarios run an independent second Join alongside; a separate part joins streams of type any; all scripts of 6 (thorough: 8) moves over {send 0, send 1, close 0, close 1, recv} on two inputs are enumerated for three capacity pairs; one scenario in fifteen has 17..70 inputs (more than processors); with every element offered, the inputs open and a fair consumer everything must have come out already; scripts contain waits of 2 s / 90 s / 4000 s of virtual time; a few hundred (thorough: 15000) of the generated scenarios are also executed in a binary built with the race detector; non-trivial = k >= 2, two non-empty inputs, sends alternate between inputs; distinct = different canonical scenario'),
      assumptions=E3_ASSUME,
      parts=[
          dict(name='any-elements', engine='E3', pkg='pipes', test='TestC12Any', replay_test='TestReplayAny',
               quick=dict(cases=4000, shards=1), thorough=dict(cases=100000, shards=4, timeout=3000)),
          dict(name='enum', engine='E3', pkg='pipes', test='TestC12Enum', kind='plain',
               quick=dict(shards=4), thorough=dict(shards=16, timeout=3000)),
+         dict(name='race-detector', engine='E3', pkg='pipes', test='TestC12', race=True, env=dict(GORACE='halt_on_error=1'),
+              quick=dict(cases=400, shards=2), thorough=dict(cases=15000, shards=8, timeout=3000)),
          dict(name='rapid', engine='E3', pkg='pipes', test='TestC12',
               quick=dict(cases=12000, shards=4), thorough=dict(cases=600000, shards=16, timeout=3000)),
      ],
